@@ -80,6 +80,7 @@ theorem transportWrite (line : Str) : Resp' (M.transportWrite line) := ⟨fun w1
   split
   · exact ⟨rfl, ⟨hs.st, rfl, by simp [hs.writes]⟩⟩
   · exact ⟨rfl, ⟨hs.st, rfl, by simp [hs.writes]⟩⟩
+  · exact ⟨rfl, ⟨hs.st, rfl, by simp [hs.writes]⟩⟩
   · exact ⟨rfl, ⟨hs.st, by simpa using hs.faults ▸ rfl, by simp [hs.writes]⟩⟩⟩
 
 theorem tryFinally {x y : M α} {f g : Except Exn α → M Unit} (hx : Resp2' x y) (hf : ∀ r, Resp2' (f r) (g r)) :
